@@ -97,6 +97,10 @@ static inline unsigned long str_find_char(const str *s, char c, unsigned long po
     __CPROVER_decreases(s->len - i)
   { if (s->data[i] == c) return i; i++; }
   return (unsigned long)-1; }
+/* std::string::compare: 0 exactly when the contents are equal (sv_eq), otherwise some non-zero value (the order is not modelled) */
+static inline int sv_compare(sv a, sv b) { if (sv_eq(a, b)) return 0; int r = nondet_int(); __CPROVER_assume(r != 0); return r; }
+/* std::hash<std::string>: a function of the content; for a string of known content class it is that class, otherwise unknown */
+static inline unsigned long shim_hash_sv(sv s) { return s.id != 0 ? s.id : nondet_ulong(); }
 /* std::to_string / number formatting: the digits are opaque (libc), the length is between 1 and 330 bytes */
 static inline str str_from_num(double v) {
   unsigned long n = nondet_ulong(); __CPROVER_assume(n >= 1 && n <= 330);
